@@ -26,7 +26,7 @@ theorem step_ended_cause (cfg : Cfg) (s : ObsState) (e : TEvent) (h : (step cfg 
         simp only [step, stepFirst]
         split
         · simp
-        · cases hv : m.obs <;> simp
+        · cases hv : m.notif <;> simp
       · left; rfl
     | exception k => left; rfl
     | obsCancel =>
@@ -41,7 +41,7 @@ theorem step_ended_cause (cfg : Cfg) (s : ObsState) (e : TEvent) (h : (step cfg 
     | message m last =>
       cases last
       · right
-        cases hv : m.obs with
+        cases hv : m.notif with
         | none => simp [step, stepCancelledFirst, hv]
         | some v => simp [step, stepCancelledFirst, hv] at h
       · left; rfl
@@ -54,11 +54,11 @@ theorem step_ended_cause (cfg : Cfg) (s : ObsState) (e : TEvent) (h : (step cfg 
     | message m last =>
       cases last
       · right
-        cases hv : m.obs with
+        cases hv : m.notif with
         | none => simp [step, stepObserving, hv]
         | some v2 =>
           rw [step_notification cfg v1 t1 t m v2 false hv] at h
-          cases hf : fresher cfg.reset v1 t1 v2 t <;> simp [hf] at h
+          cases hf : fresher cfg.reset v1 t1 v2 t <;> cases hc : m.cancels <;> simp [hf, hc] at h
       · left; rfl
     | exception k => left; rfl
     | obsCancel => simp [step, stepObserving] at h
